@@ -43,9 +43,11 @@ def oracle(case, limit_n):
     info = {"applicable": False, "n": out["n"], "walks": 0, "exhaustive": False}
     if out["con"][0] == "err":
         return ("asserts", f"get_constraint_data raised {out['con'][1]}", {}), info
-    if not in_hypotheses(case, out):
+    if not (case["L"] >= 3 and out["N"] >= 1):
         return None, info
-    info["applicable"] = True
+    # the walk oracle also runs when set_depot was never called (no depot self-arc: a vehicle then cannot stay at the depot);
+    # the theorems' hypothesis seq_ok requires the self-arc, so only instances with it are handed to the Coq hypothesis check
+    info["applicable"] = in_hypotheses(case, out)
     V, L, N, n = case["V"], case["L"], out["N"], out["n"]
     arcd = dict(out["arcs"])
     arcset = set(arcd)
@@ -126,7 +128,7 @@ def oracle(case, limit_n):
     nodes = [(nd.get_window()[0], nd.get_window()[1]) for nd in obj.nodes]
     # strict-timing claim (C07_strict_time_all_histories): EVERY strict history -- the depot chosen or moved at any
     # time -- whose arc currently stored under (0,0) keeps a waiting vehicle inside the depot window
-    self_ok = nodes[0][1] == INF or arcd[(0, 0)][0] <= 0
+    self_ok = (0, 0) in arcd and (nodes[0][1] == INF or arcd[(0, 0)][0] <= 0)
     strict_applies = case["strict"] and self_ok
     info["strict_applies"] = strict_applies
     info["depot_moved_after_arcs"] = case["strict"] and not S.depot_first(case)
